@@ -1,0 +1,28 @@
+//go:build verif
+
+// Package verifhook provides instrumentation points for the external verification harness.
+// With the "verif" build tag, Point calls the handler installed by the harness (if any); the
+// handler may park the calling goroutine (forced schedules) or panic (simulated crash).
+package verifhook
+
+import "sync/atomic"
+
+type handlerFunc func(site string, arg string)
+
+var handler atomic.Value // of handlerFunc
+
+// Set installs (or, with nil, removes) the handler called at every instrumentation point.
+func Set(f func(site string, arg string)) {
+	if f == nil {
+		handler.Store(handlerFunc(nil))
+		return
+	}
+	handler.Store(handlerFunc(f))
+}
+
+// Point marks an instrumentation site.
+func Point(site string, arg string) {
+	if h, ok := handler.Load().(handlerFunc); ok && h != nil {
+		h(site, arg)
+	}
+}
